@@ -85,12 +85,14 @@ def feeFloor (s : String) : Nat :=
   | some (major, minor) =>
     if major > 29 ∨ (major = 29 ∧ minor ≥ 2) then Gen.modernFeeFloor else Gen.legacyFeeFloor
 
+/-- the estimate after the fallback rule of `GetFee`: error or zero → configured fallback -/
+def feeEstimate (est : Option Int) (fallback : Int) : Int :=
+  match est with
+  | none => fallback
+  | some e => if e = 0 then fallback else e
+
 /-- the fee rate `GetFee` uses, in sat/kw: `est = none` is an estimator error -/
 def feeRate (est : Option Int) (fallback floor : Int) : Int :=
-  let r := match est with
-    | none => fallback
-    | some 0 => fallback
-    | some e => e
-  if r < floor then floor else r
+  if feeEstimate est fallback < floor then floor else feeEstimate est fallback
 
 end PsVerif.Model
